@@ -17,6 +17,7 @@ from .tree_common import check_from_list_rows, check_sep
 def check(ck: Checker) -> None:
     from . import round4 as _r4
 
+    _r4.tree_load_rejects_only_nonlist(ck, "C02.load")
     _r4.failures_always_raised(ck, "C02.checkout.pair")
     ck.decided = [
         "C02.sep: Tree.as_list / from_list use the same path field and '/' separator (unbounded split)",
